@@ -193,6 +193,11 @@ func genC16(rng *rand.Rand, n int, emit func(Case), dist map[string]int) {
 		if strings.Contains(cf.name, "IgnoreBase") && rng.Intn(2) == 0 {
 			// IgnoreBase acts when the last element of the path repeats the base of the route
 			target = strings.TrimRight(target, "/") + "/assets"
+			if rng.Intn(2) == 0 {
+				// ... or merely ENDS with it: a last element that is the route base behind dots or other text is not the route base
+				target = strings.TrimSuffix(target, "assets") + []string{"..assets", "%2e%2eassets", ".assets", "xassets", "..assets/", "sub/..assets", "../..assets", "...assets"}[rng.Intn(8)]
+				dist["ignore_base_last_element_ends_with_route_base"]++
+			}
 		}
 		if strings.Contains(cf.name, "wildcard route /api/*") && rng.Intn(3) == 0 {
 			target = "/api/ping" // served by the route; the NEXT request on the recycled context must not inherit its path
